@@ -55,7 +55,7 @@ func streamForward(rep *Report, tier string, seed uint64) {
 				verbs = append(verbs, string(c))
 			}
 			verbs = append(verbs, "世", "é", "‹")
-			widths := []string{"", "0", "1", "7", "12", "1000", "*"}
+			widths := []string{"", "0", "1", "7", "12", "1000", "*", "*0"}
 			precs := []string{"", ".0", ".1", ".5", ".*"}
 			operands := []interface{}{true, 42, -7, uint8(200), 3.25, complex(1, -2), "str", []byte("by"), 'x', errors.New("e"), strg{"s"}, nil, []int{1, 2}, map[string]int{"a": 1}, struct{ A int }{3}, &intCell}
 			for m := 0; m < 32; m++ {
@@ -68,11 +68,17 @@ func streamForward(rep *Report, tier string, seed uint64) {
 				for _, w := range widths {
 					for _, p := range precs {
 						for vi, vb := range verbs {
-							d := "%" + fl + w + p + vb
+							wd := w
 							var star []interface{}
 							if w == "*" {
 								star = append(star, 9)
 							}
+							if w == "*0" {
+								// an explicit width of 0 can only be given through '*'
+								wd = "*"
+								star = append(star, 0)
+							}
+							d := "%" + fl + wd + p + vb
 							if p == ".*" {
 								star = append(star, 2)
 							}
@@ -101,7 +107,23 @@ func streamForward(rep *Report, tier string, seed uint64) {
 									_ = redact.Sprintf(s1.format, probe{&rec2})
 								}
 								if len(rec2) != 1 || rec2[0].key() != s1.key() {
-									orc = append(orc, fmt.Sprintf("C14:%s: MakeFormat(%q) = %q does not re-create the directive: %v vs %v", impl, d, s1.format, s1.key(), rec2))
+									site := ""
+									if s1.wok && s1.w == 0 {
+										site = "D9:width-zero@@"
+									}
+									orc = append(orc, fmt.Sprintf("%sC14:%s: MakeFormat(%q) = %q does not re-create the directive: %v vs %v", site, impl, d, s1.format, s1.key(), rec2))
+								}
+								if wd != "*" && p != ".*" {
+									// the model's directive parser against the real one
+									rule := "0"
+									if impl == "redact" {
+										rule = "1"
+									}
+									fb := ""
+									for i := range s1.flags {
+										fb += b01(s1.flags[i])
+									}
+									emit(Case{Line: "pd " + rule + " " + hx([]byte(d)), Real: fmt.Sprintf("%s %s %s %d", fb, wpTok(s1.w, s1.wok), wpTok(s1.p, s1.pk), s1.verb), Nontriv: true, Kind: "pd:" + impl})
 								}
 								bare := m == 0 && w == "" && p == "" && vb == "v"
 								if s1.justV != bare {
